@@ -42,6 +42,9 @@ def run(check: Check) -> None:
     # the two defuzzify methods are decided by interpretation on model fuzzy outputs with symbolic degrees and values (sa/rules/weighted_sem.py); the
     # rules of earlier rounds that recognised the loop, its accumulators, the value selector and the seeds (S3, A2, A3) are subsumed and were removed
     weighted_semantics(check)
+    from . import wiring
+
+    wiring.p10_activation_degree_lookup(check)  # Aggregated.activation_degree(term): the grouped degree of the term of that name
     infer_type_table(check)
     from .common import memoisation_rule
 
